@@ -2,17 +2,20 @@
 (* Enumerates byte strings (every length 0..MaxLen, several contents), every index and every (start,end) of the
    six range kinds incl. usize::MAX, every concat pair, and prints the expected outcome of each case. *)
 EXTENDS Hex, Json
-CONSTANTS MaxLen, MaxIdx, Mode       \* Mode: "access" (C15) or "concat" (C16)
+CONSTANTS MaxLen, MaxIdx, Mode,      \* Mode: "access" (C15) or "concat" (C16)
+          LongLens                   \* further, longer lengths (around powers of two), with indices at the edges only
 Idxs == 0..MaxIdx \cup {Max}
+IdxsOf(len) == IF len <= MaxLen THEN Idxs ELSE {0, 1, 7, 8, 9, len - 9, len - 8, len - 1, len, len + 1, Max}
+OthersOf(len) == IF len <= MaxLen THEN 0..MaxLen ELSE {0, 1, 8, 9, len}
 J(i) == IF i = Max THEN -1 ELSE i
 \* contents: a ramp (every position distinguishable), all FF, a pattern with zeros and a one first
 Content(n, p) == CASE p = 1 -> [i \in 1..n |-> (16 * p + i) % 256]
                    [] p = 2 -> [i \in 1..n |-> 255]
-                   [] p = 3 -> [i \in 1..n |-> IF i = 1 THEN 1 ELSE IF i % 2 = 0 THEN 0 ELSE 128 + i]
+                   [] p = 3 -> [i \in 1..n |-> IF i = 1 THEN 1 ELSE IF i % 2 = 0 THEN 0 ELSE (128 + i) % 256]
                    [] p = 4 -> [i \in 1..n |-> (200 + 7 * i) % 256]
                    [] p = 5 -> [i \in 1..n |-> 0]                     \* all zero: looks like the blank array
 VARIABLES n, p, done
-Init == n \in 0..MaxLen /\ p \in {1, 2, 3, 5} /\ done = FALSE
+Init == n \in (0..MaxLen) \cup LongLens /\ p \in {1, 2, 3, 5} /\ done = FALSE
 VO(op, s, a, b, other, exp) == PrintT(ToJson([op |-> op, bytes |-> s, a |-> J(a), b |-> J(b), other |-> other, exp |-> exp]))
 V(op, s, a, b, exp) == VO(op, s, a, b, <<>>, exp)
 Access(s) ==
@@ -25,16 +28,16 @@ Access(s) ==
   /\ V("to_f64", s, 0, 0, To64(s))
   /\ V("to_bool", s, 0, 0, ToBool(s))
   /\ V("is_empty", s, 0, 0, [k |-> "bool", v |-> Len(s) = 0])
-  /\ \A i \in Idxs : /\ V("index", s, i, 0, Index(s, i))
+  /\ \A i \in IdxsOf(Len(s)) : /\ V("index", s, i, 0, Index(s, i))
                      /\ V("byte_at", s, i, 0, Index(s, i))
                      /\ V("tail", s, i, 0, TailOf(s, i))
                      /\ V("from", s, i, 0, RangeFrom(s, i))
                      /\ V("to", s, i, 0, RangeTo(s, i))
                      /\ V("to_incl", s, i, 0, RangeToIncl(s, i))
                      /\ V("set", s, i, 77, SetByte(s, i, 77))
-  /\ \A a \in Idxs, b \in Idxs : V("range", s, a, b, RangeOf(s, a, b)) /\ V("incl", s, a, b, RangeIncl(s, a, b))
-  /\ \A m \in 0..MaxLen, q \in {1, 2, 3, 5} : VO("eq", s, m, q, Content(m, q), [k |-> "bool", v |-> s = Content(m, q)])
-Cat(s) == \A m \in 0..MaxLen, q \in {4, 5} : VO("concat", s, m, q, Content(m, q), Bytes(Concat(s, Content(m, q))))
+  /\ \A a \in IdxsOf(Len(s)), b \in IdxsOf(Len(s)) : V("range", s, a, b, RangeOf(s, a, b)) /\ V("incl", s, a, b, RangeIncl(s, a, b))
+  /\ \A m \in OthersOf(Len(s)), q \in {1, 2, 3, 5} : VO("eq", s, m, q, Content(m, q), [k |-> "bool", v |-> s = Content(m, q)])
+Cat(s) == \A m \in OthersOf(Len(s)), q \in {4, 5} : VO("concat", s, m, q, Content(m, q), Bytes(Concat(s, Content(m, q))))
 Next == /\ ~done /\ done' = TRUE /\ UNCHANGED <<n, p>>
         /\ IF Mode = "access" THEN Access(Content(n, p)) ELSE Cat(Content(n, p))
 =============================================================================
